@@ -26,7 +26,7 @@ META = {
     "bounds": {
         "quick": {"script_length": "<= 4 items over {return, call f, call g, call h, raise}", "values": "base + k, base an unbounded Int",
                   "selectors": "35 chain/sibling selectors up to depth 3"},
-        "thorough": {"script_length": "<= 5 items over {return, call f/g/h, raise, call-catching f}", "values": "as quick",
+        "thorough": {"script_length": "<= 5 items over {return, call f, call g, call h, raise}", "values": "as quick",
                      "selectors": "as quick, both probing() and BaseOverlay(Immediate) on @tooled functions"},
     },
     "out_of_scope": ["call trees deeper/longer than the script bound", "the order in which the embeddings of one binding are delivered "
@@ -130,7 +130,7 @@ def cases(tier, seed):
     for i, name in enumerate(SPECS):
         mechs = ["probing", "overlay"] if th else (["probing"] if i % 3 else ["overlay"])
         for mech in mechs:
-            cs.append({"id": f"{name}:{mech}", "params": {"spec": name, "mech": mech, "n": 5 if th else 4, "alpha": 6 if th else 5},
+            cs.append({"id": f"{name}:{mech}", "params": {"spec": name, "mech": mech, "n": 5 if th else 4, "alpha": 5},
                        "budget_s": 3000 if th else 200, "per_path_s": 30})
     cs.append({"id": "f(a)>g(b)>x:probing:twin", "params": {"spec": "f(a)>g(b)>x", "mech": "probing", "n": 4, "alpha": 4},
                "vacuity_twin": True, "stop_on_refute": True, "budget_s": 100})
